@@ -277,11 +277,96 @@ class CatNd(Unique):
         return [[ord(x) for x in c.categories], [int(i) for i in np.asarray(c.codes).ravel()]]
 
 
+class CatDerived(Family):
+    """categorical_ndarray objects DERIVED from another one (numpy calls __array_finalize__, which hands
+    the parent's categories down; codes are then looked up again): reversal, permutation, roll, sort,
+    slices, views, copies, boolean/fancy indexing, 2-d transpose — each with and without the parent's
+    codes/categories having been read first, and with explicit categories=.  The derivation itself is
+    numpy's (L0); the observable is (categories, codes) of the derived array."""
+    name = "catder"
+    exhaustive = True
+    OPS = ["rev", "roll1", "sort", "copy", "view", "full", "head", "tail", "step2", "perm", "mask", "T", "ravelT", "take0"]
+
+    def cases(self, tier, rng):
+        L = 4 if tier == "quick" else 5
+        for n in range(1, L + 1):
+            for xs in itertools.product((97, 98, 100), repeat=n):
+                for op in self.OPS:
+                    for touch in (0, 1, 2, 3):
+                        yield [list(xs), op, touch]
+        for _ in range(400 if tier == "quick" else 8000):
+            xs = [rng.choice([65, 66, 90, 97, 98, 122]) for _ in range(rng.randint(1, 10))]
+            yield [xs, rng.choice(self.OPS), rng.randint(0, 3)]
+
+    @staticmethod
+    def _derive(c, op, n):
+        if op == "rev":
+            return c[::-1]
+        if op == "roll1":
+            return np.roll(c, 1)
+        if op == "sort":
+            return np.sort(c)
+        if op == "copy":
+            return c.copy()
+        if op == "view":
+            return c.view()
+        if op == "full":
+            return c[:]
+        if op == "head":
+            return c[:max(1, n // 2)]
+        if op == "tail":
+            return c[n // 2:]
+        if op == "step2":
+            return c[::2]
+        if op == "perm":
+            return c[np.array([(i * 3 + 1) % n for i in range(n)] if n % 3 else list(range(n - 1, -1, -1)))]
+        if op == "mask":
+            return c[np.array([i % 2 == 0 for i in range(n)])]
+        if op == "take0":
+            return c[np.zeros(n, dtype=int)]
+        if op in ("T", "ravelT"):
+            if n >= 4 and n % 2 == 0:
+                d = c.reshape((2, -1)).T
+                return d if op == "T" else d.ravel()
+            return c[::-1]
+        raise ValueError(op)
+
+    def run_impl(self, case):
+        xs, op, touch = case
+        vals = np.array([chr(x) for x in xs])
+        if touch == 3:  # explicit categories (sorted unique), as the data factories pass them
+            c = A.categorical_ndarray(vals, categories=np.unique(vals))
+        else:
+            c = A.categorical_ndarray(vals)
+        if touch == 1:
+            c.codes
+        elif touch == 2:
+            c.categories
+        d = self._derive(c, op, len(xs))
+        if not isinstance(d, A.categorical_ndarray):
+            return "not-categorical"
+        dv = [ord(x) for x in np.asarray(d).ravel().tolist()]
+        codes = np.asarray(d.codes, dtype=float).ravel()
+        cats = [ord(x) for x in np.asarray(d.categories).tolist()]
+        self._dv = dv
+        return [dv, cats, [None if np.isnan(k) else int(k) for k in codes]]
+
+    def line(self, case, pyout):
+        from harness.core import sx
+        xs, op, touch = case
+        if isinstance(pyout, list) and len(pyout) == 3 and pyout[0] != "py-exception":
+            return sx(["catder", [xs, pyout[0], op], [pyout[1], pyout[2]]])
+        return sx(["catder", [xs, [], op], pyout])
+
+    def nontrivial(self, case, po):
+        return isinstance(po, list) and len(po) == 3 and po[0] != [str(x) for x in case[0]]
+
+
 PROP = Property(
     id="C20",
     title="Chunk, slice and broadcast helpers are exact",
-    theorems=["C20.findChunkShape_spec", "C20.iterateChunks_partition", "C20.iterateChunks_nmax", "C20.unbroadcast_roundtrip", "C20.unique_spec", "C20.viewShape_slice_length", "C20.combineNorm_correct", "C20.combineSlices_spec", "C20.iterLoop_eq_prod", "C20.iterateChunksLoop_partition", "C20.iterateChunksLoop_nmax"],
-    families=[SliceIndices(), Fcs(), Iter(), Comb(), Unbroadcast(), ViewShape(), Unique(), CatNd()],
+    theorems=["C20.findChunkShape_spec", "C20.iterateChunks_partition", "C20.iterateChunks_nmax", "C20.unbroadcast_roundtrip", "C20.unique_spec", "C20.viewShape_slice_length", "C20.combineNorm_correct", "C20.combineSlices_spec", "C20.iterLoop_eq_prod", "C20.iterateChunksLoop_partition", "C20.iterateChunksLoop_nmax", "C20.derived_codes_spec"],
+    families=[SliceIndices(), Fcs(), Iter(), Comb(), Unbroadcast(), ViewShape(), Unique(), CatNd(), CatDerived()],
     trusted_base=["numpy striding / as_strided, pandas.factorize(sort=True), CPython slice.indices (the latter validated by the slidx L0 family)"],
     assumptions=["numpy and pandas behave as their L0 models on the explored scope"],
     rule="exhaustive small scopes per family (shapes, chunk shapes/limits, normalised slice triples, stride patterns, arrays over a 3-letter alphabet) plus seeded random beyond; non-trivial = more than one chunk / non-empty combined slice / a removed broadcast axis / >=2 values",
